@@ -77,6 +77,11 @@ def run(chk):
             from checks import c06_trace as _t
             _t.asan_behaviours(chk, sc, cfg, behs, const)
             r = run_py(sc, ["-m", "harness.replay_heap", path], timeout=1800)
+            if r.returncode < 0 and r.returncode != -9:
+                # killed by a signal (SIGSEGV, SIGABRT, ...): the C code under replay performed an invalid access
+                chk.violation("replay:signal", "the real scheduler crashed the process (signal %d) while replaying the behaviours of %s: "
+                              "invalid memory access in the C heap" % (-r.returncode, cfg), dict(config=cfg, stderr=r.stderr[-1500:]))
+                continue
             if r.returncode != 0:
                 chk.machinery("replay_heap crashed: " + r.stderr[-1500:])
                 continue
